@@ -202,5 +202,103 @@ Proof.
   split; intros H s Hs; apply step_okb_spec; auto.
 Qed.
 
+(* ---- the model's own output always passes the observer (for ALL fleets, databases and command
+   sequences), so agreement with the model on a case implies the property on that case ---- *)
+Definition Rel (fl : fleet) (t : tracker) (d : db) : Prop :=
+  forall id, x_data (t id) = e_data (d id) /\ x_map (t id) = is_some (e_map (d id))
+             /\ (x_settled (t id) = true -> settled fl d id).
+
+Lemma in_filter_obs x a : In x (filter observable a) -> In x a.
+Proof. intros H. apply filter_In in H. tauto. Qed.
+
+Lemma analysis_free_filter a : analysis_free a -> analysis_free (filter observable a).
+Proof. intros [H1 H2]. split; intros H; apply in_filter_obs in H; auto. Qed.
+
+Lemma model_step_holds fl t d c :
+  Rel fl t d -> Holds_step (c, fl (cmd_id c), t (cmd_id c), model_step fl d c).
+Proof.
+  intros R. destruct c as [id|id|id|id]; cbn [Holds_step cmd_id]; auto.
+  destruct (fl id) as [[f cp]|] eqn:F; [|exact I].
+  destruct (R id) as [Rd [Rm Rs]]. cbv zeta.
+  assert (A : os_acts (model_step fl d (Start id)) = filter observable (start_actions f cp (d id))).
+  { unfold model_step. cbn [os_acts acts]. now rewrite F. }
+  assert (Fm : os_final (model_step fl d (Start id)) = start_map f cp (d id)).
+  { unfold model_step. cbn [os_final]. now rewrite F. }
+  rewrite A, Fm. split; [|split; [|split]].
+  - intros Hd Hm. apply analysis_free_filter. apply start_reuse; [congruence|].
+    rewrite Rm in Hm. now apply is_some_spec.
+  - intros m H. destruct (start_cfg_map f cp (d id) m H) as [S1 S2]. split; [|exact S2].
+    intros X. apply in_filter_obs in X. auto.
+  - intros K Hlo Hhi X. apply in_filter_obs in X.
+    destruct (f_min f) as [lo|] eqn:E1; [|congruence]. destruct (f_max f) as [hi|] eqn:E2; [|congruence].
+    exact (start_minmax f cp (d id) lo hi K E1 E2 X).
+  - intros S. apply analysis_free_filter. pose proof (settled_no_analysis fl d id (Rs S)) as Q.
+    unfold acts in Q. now rewrite F in Q.
+Qed.
+
+Lemma cmd_id_neq c id : cmd_id c <> id -> c <> Start id /\ c <> Stop id /\ c <> Reset id /\ c <> Init id.
+Proof. intros H. repeat split; intros ->; cbn in H; congruence. Qed.
+
+Lemma Rel_step fl t d c : Rel fl t d -> Rel fl (track t c (model_step fl d c)) (step fl d c).
+Proof.
+  intros R id. unfold track, tupd. destruct (Z.eqb_spec id (cmd_id c)) as [->|Ne].
+  - cbn [x_data x_map x_settled]. unfold model_step at 1 2. cbn [os_data os_map]. split; [reflexivity|split; [reflexivity|]].
+    destruct (R (cmd_id c)) as [_ [_ Rs]].
+    destruct c as [j|j|j|j]; cbn [cmd_id] in *; try discriminate.
+    + intros H. apply orb_true_iff in H. destruct H as [H|H].
+      * apply settled_preserved; [discriminate|discriminate|auto].
+      * apply has_spec in H. unfold model_step in H. cbn [os_acts] in H. apply in_filter_obs in H.
+        now apply settled_after_completed_start.
+    + intros H. apply settled_preserved; [discriminate|discriminate|auto].
+  - destruct (R id) as [Rd [Rm Rs]].
+    assert (N : cmd_id c <> id) by congruence.
+    pose proof (cmd_id_neq c id N) as Q. rewrite (step_isolated fl d c id Q).
+    split; [exact Rd|split; [exact Rm|]]. intros S. destruct Q as [_ [_ [Q3 Q4]]].
+    now apply settled_preserved; auto.
+Qed.
+
+Lemma model_annot_holds fl cs : forall t d, Rel fl t d ->
+  Forall Holds_step (annot fl t cs (model_steps fl d cs)).
+Proof.
+  induction cs as [|c r IH]; intros t d R; cbn [annot model_steps]; constructor.
+  - now apply model_step_holds.
+  - apply IH. now apply Rel_step.
+Qed.
+
+Lemma Rel_init fl d : Rel fl (tracker0 d) d.
+Proof. intros id. unfold tracker0. cbn. repeat split. discriminate. Qed.
+
+(* whatever the model produces passes the observer: model = implementation on a case (mismatch = false)
+   therefore implies that the case holds *)
+Theorem model_output_holds : forall fans db0 cmds,
+  holdsb (mkCase fans db0 cmds (model_steps (fleet_of fans) (db_of db0) cmds)) = true.
+Proof.
+  intros. apply holdsb_spec. unfold Holds. cbn [c_fans c_db0 c_cmds o_steps].
+  apply model_annot_holds. apply Rel_init.
+Qed.
+
+Lemma list_eqb_true {A} (eqb : A -> A -> bool) (H : forall a b, eqb a b = true -> a = b) :
+  forall l1 l2, list_eqb eqb l1 l2 = true -> l1 = l2.
+Proof.
+  induction l1 as [|x r IH]; destruct l2 as [|y r2]; cbn; intros E; try discriminate; [reflexivity|].
+  apply andb_true_iff in E. destruct E as [E1 E2]. f_equal; auto.
+Qed.
+
+Lemma ostep_eqb_true a b : ostep_eqb a b = true -> a = b.
+Proof.
+  destruct a as [a1 a2 a3 a4], b as [b1 b2 b3 b4]. unfold ostep_eqb. cbn [os_acts os_data os_map os_final].
+  rewrite !andb_true_iff. intros [[[E1 E2] E3] E4].
+  apply (list_eqb_true action_eqb (fun x y => proj1 (action_eqb_eq x y))) in E1.
+  apply Bool.eqb_prop in E2, E3. apply opmap_eqb_eq in E4. congruence.
+Qed.
+
+(* agreement with the model on a case implies the property on that case *)
+Theorem no_mismatch_holds c : mismatch c = false -> holdsb c = true.
+Proof.
+  destruct c as [fans db0 cmds o]. unfold mismatch. cbn [c_fans c_db0 c_cmds o_steps].
+  intros H. apply negb_false_iff in H. apply (list_eqb_true ostep_eqb ostep_eqb_true) in H. subst o.
+  apply model_output_holds.
+Qed.
+
 (* no recorded finding for this property: every failing case is a violation *)
 Definition finding_code (c : case) : Z := 0.
